@@ -127,8 +127,24 @@ def make_dialect(spec, name):
             return {"deserialize": de}
         return {"serialize": ser, "deserialize": de}
 
+    def bser(v, _t=tag):
+        return f"{_t}~{bytes(v).hex()}"
+
+    def bde(s, _t=tag):
+        return bytes.fromhex(s.split("~", 1)[1]) if isinstance(s, str) and "~" in s else s
+
+    def tser(v, _t=tag):
+        return f"{_t}@{v.isoformat()}"
+
+    def tde(s, _t=tag):
+        return datetime.datetime.fromisoformat(s.split("@", 1)[1]) if isinstance(s, str) and "@" in s else s
+
     ns = {}
     st = {}
+    if spec.get("bytes"):
+        st[bytes] = reg(spec["bytes"], bser, bde)
+    if spec.get("datetime"):
+        st[datetime.datetime] = reg(spec["datetime"], tser, tde)
     if spec.get("date"):
         st[datetime.date] = reg(spec["date"], dser, dde)
     if spec.get("int"):
@@ -723,14 +739,20 @@ UNI_DIALECTS = [
     {"tag": "u8", "opts": {}, "date": "de"},
     {"tag": "u9", "opts": {"omit_none": True, "omit_default": True, "serialize_by_alias": True, "namedtuple_as_dict": True}, "date": "obj", "int": "obj", "no_copy": True},
     {"tag": "u10", "opts": {"omit_none": False, "serialize_by_alias": False}},
+    # the user's registration for a type the FORMAT treats natively must win in every codec
+    {"tag": "u11", "opts": {}, "bytes": "both"},
+    {"tag": "u12", "opts": {}, "bytes": "obj", "datetime": "obj"},
+    {"tag": "u13", "opts": {}, "datetime": "both", "date": "both"},
+    {"tag": "u14", "opts": {}, "bytes": "ser"},
+    {"tag": "u15", "opts": {}, "datetime": "de"},
 ]
 
 
 def uniform_shape(uid, mixin=None):
     from mashumaro import field_options
 
-    ann = {"d": datetime.date, "n": int, "o": Optional[int], "a": str, "t": NT, "l": List[int], "s": str}
-    ns = {"__annotations__": ann, "n": 0, "o": None, "a": dataclasses.field(default="", metadata=field_options(alias="A")), "t": NT(1, 2), "l": dataclasses.field(default_factory=list), "s": "k"}
+    ann = {"d": datetime.date, "n": int, "o": Optional[int], "a": str, "t": NT, "l": List[int], "s": str, "b": bytes, "dt": datetime.datetime}
+    ns = {"__annotations__": ann, "b": b"\x00\xffab", "dt": datetime.datetime(2024, 2, 29, 1, 2, 3), "n": 0, "o": None, "a": dataclasses.field(default="", metadata=field_options(alias="A")), "t": NT(1, 2), "l": dataclasses.field(default_factory=list), "s": "k"}
     return mk(f"U_{uid}", (mixin,) if mixin else (), ns, kw_only=True)
 
 
@@ -763,7 +785,7 @@ def run_uniform(ctx, nvals, specs):
                 except Exception as e:  # noqa
                     ctx.violation(case0, {"error": f"{type(e).__name__}: {e}"[:300]}, "codec builds", "codec construction failed", lambda _f: False)
                     continue
-                one_way = spec.get("date") == "ser" or spec.get("int") == "ser"
+                one_way = any(spec.get(k) == "ser" for k in ("date", "int", "bytes", "datetime"))
                 for vi, v in enumerate(uniform_values(T, ctx.rng, nvals)):
                     case = {**case0, "value": canon(v)}
                     ctx.count(case, True, kind=f"uniform:{fname}")
@@ -808,7 +830,7 @@ def run_uniform(ctx, nvals, specs):
         Mixin = [getattr(mod, a) for a in dir(mod) if a.startswith("DataClass") and a.endswith("Mixin") and a != "DataClassDictMixin"][0]
         from mashumaro.config import ADD_DIALECT_SUPPORT, BaseConfig
 
-        TM = mk(f"UM_{mname}", (Mixin,), {**{"__annotations__": dict(T.__annotations__)}, **{k: v for k, v in (("n", 0), ("o", None), ("t", NT(1, 2)), ("s", "k"))}, "a": dataclasses.field(default="", metadata={"alias": "A"}), "l": dataclasses.field(default_factory=list), "Config": type("Config", (BaseConfig,), {"code_generation_options": [ADD_DIALECT_SUPPORT]})}, kw_only=True)
+        TM = mk(f"UM_{mname}", (Mixin,), {**{"__annotations__": dict(T.__annotations__)}, **{k: v for k, v in (("n", 0), ("o", None), ("t", NT(1, 2)), ("s", "k"), ("b", b"\x00\xffab"), ("dt", datetime.datetime(2024, 2, 29, 1, 2, 3)))}, "a": dataclasses.field(default="", metadata={"alias": "A"}), "l": dataclasses.field(default_factory=list), "Config": type("Config", (BaseConfig,), {"code_generation_options": [ADD_DIALECT_SUPPORT]})}, kw_only=True)
         Enc, Dec, parse, ser, FD = fams[mname]
         for si, spec in enumerate(specs):
             D = make_dialect(spec, f"UMD{si}")
@@ -821,7 +843,7 @@ def run_uniform(ctx, nvals, specs):
                 try:
                     got = parse(getattr(vm, slots[0])(dialect=D))
                     want = parse(enc.encode(v))
-                    back = None if (spec.get("date") == "ser" or spec.get("int") == "ser") else getattr(TM, slots[1])(getattr(vm, slots[0])(dialect=D), dialect=D)
+                    back = None if any(spec.get(k) == "ser" for k in ("date", "int", "bytes", "datetime")) else getattr(TM, slots[1])(getattr(vm, slots[0])(dialect=D), dialect=D)
                 except Exception as e:  # noqa
                     try:
                         enc.encode(v)
